@@ -16,6 +16,7 @@ import (
 	"crypto/elliptic"
 	"crypto/sha512"
 	"encoding/hex"
+	"encoding/json"
 	"fmt"
 	"math/big"
 	"sort"
@@ -419,6 +420,95 @@ func applyInner(s *State, op Op) (string, *mc.Viol) {
 	return "harness-bad-op", nil
 }
 
+// ---- (4) many origins: one client binds K distinct issuer origin IDs, then repeats ----
+//
+// The depth-bounded searches see a handful of bindings per client. Here ONE client (one attester
+// object, one cache) goes through a single long history: K origins with K distinct index keys,
+// each accepted once under its own anonymous id, then every pair repeated (accepted), then every
+// origin offered under the next origin's anonymous id (refused), then the repeats again; the
+// bindings dumped from the implementation must equal the model after every step. The blinded
+// request keys are computed by the reference (f_k * request key), no issuer is involved.
+
+type manyP struct {
+	K int `json:"origins"`
+}
+
+func manyOrigins(p manyP) (int, *mc.Viol) {
+	initState()
+	if fx.err != "" {
+		return 0, nil
+	}
+	cf := &fx.cl[cA]
+	s := initState()
+	s.att = type3.NewRateLimitedAttester(s.cache)
+	if _, v := apply(s, Op{K: "verify", C: cA}); v != nil {
+		return 0, v
+	}
+	type org struct {
+		brk  []byte
+		id   string
+		anon []byte
+	}
+	os := make([]org, p.K)
+	for k := range os {
+		ik := new(big.Int).SetBytes(mc.Fill(seedBase, fmt.Sprintf("c09-many-indexkey-%d", k), 40))
+		ik.Add(ik, big.NewInt(2))
+		id, f, err := refIssuerOriginID(cf.pub, ik)
+		if err != nil {
+			return 0, nil
+		}
+		brk, err := mulCompressed(cf.req[0].RequestKey, f)
+		if err != nil {
+			return 0, nil
+		}
+		os[k] = org{brk, string(id), mc.Fill(seedBase, fmt.Sprintf("c09-many-anon-%d", k), 32)}
+	}
+	steps := 0
+	step := func(phase string, k int, anon []byte, want bool) *mc.Viol {
+		steps++
+		idx, err := s.att.FinalizeIndex(cp(cf.pub), cp(cf.blind[0]), cp(os[k].brk), cp(anon))
+		if (err == nil) != want {
+			sig := "FinalizeIndex accepts a second anonymous origin ID for a bound issuer origin ID"
+			if want {
+				sig = map[string]string{"bind": "FinalizeIndex rejects a pair whose issuer origin ID is still unbound", "repeat": "FinalizeIndex rejects a repeat of an accepted pair", "repeat-again": "FinalizeIndex rejects a repeat of an accepted pair"}[phase]
+			}
+			return &mc.Viol{Sig: sig + " (client with many origins)", What: fmt.Sprintf("%d origins, phase %s, origin %d (step %d): error=%v", p.K, phase, k, steps, err)}
+		}
+		if want {
+			if string(idx) != os[k].id {
+				return &mc.Viol{Sig: "FinalizeIndex returns an ID that is not the reference ID of (client, origin index key)", What: fmt.Sprintf("%d origins, phase %s, origin %d", p.K, phase, k)}
+			}
+			s.m.bind[cA][os[k].id] = string(anon)
+		}
+		if v := conform(s, "in a history with many origins"); v != nil {
+			v.What = fmt.Sprintf("phase %s, origin %d of %d: %s", phase, k, p.K, trunc(v.What, 300))
+			return v
+		}
+		return nil
+	}
+	for k := range os {
+		if v := step("bind", k, os[k].anon, true); v != nil {
+			return steps, v
+		}
+	}
+	for k := range os {
+		if v := step("repeat", k, os[k].anon, true); v != nil {
+			return steps, v
+		}
+	}
+	for k := range os {
+		if v := step("other-anon", k, os[(k+1)%p.K].anon, p.K == 1); v != nil {
+			return steps, v
+		}
+	}
+	for k := p.K - 1; k >= 0; k-- {
+		if v := step("repeat-again", k, os[k].anon, true); v != nil {
+			return steps, v
+		}
+	}
+	return steps, nil
+}
+
 func trunc(s string, n int) string {
 	if len(s) > n {
 		return s[:n]
@@ -486,6 +576,15 @@ func main() {
 		Ops: func(*State, int) []Op { return menu3 }, Apply: apply, Depth: mc.Pick(r, 4, 5), Kind: "object-history",
 		Label: func(o Op) string { return o.label() }}
 	q3.Register(r)
+	r.RegisterReplay("many-origins", func(pj json.RawMessage) *mc.Viol {
+		var p manyP
+		json.Unmarshal(pj, &p)
+		var v *mc.Viol
+		if pn := mc.CatchStack(func() { _, v = manyOrigins(p) }); pn != "" {
+			return &mc.Viol{Sig: "attester panics in a history with many origins", What: pn}
+		}
+		return v
+	})
 	if r.IsReplay() {
 		r.DoReplay()
 	}
@@ -548,5 +647,22 @@ func main() {
 		r.Case(fmt.Sprintf("objhist-%d", idx), true, "object-history:"+obs)
 	})
 	r.Set("object_histories", map[string]any{"events": len(menu3), "depth": depth3, "sequences": total})
+	// (4) many origins per client
+	ks := mc.Pick(r, []int{2, 17, 63, 64, 65, 130}, []int{2, 17, 63, 64, 65, 127, 128, 129, 255, 256, 257, 600})
+	r.Par(len(ks), func(i int) {
+		p := manyP{K: ks[i]}
+		var v *mc.Viol
+		var n int
+		if pn := mc.CatchStack(func() { n, v = manyOrigins(p) }); pn != "" {
+			v = &mc.Viol{Sig: "attester panics in a history with many origins", What: pn}
+		}
+		if v != nil {
+			r.Violation("many-origins", p, v)
+		}
+		r.AddTransitions(int64(n))
+		r.AddTraces(1)
+		r.Case(fmt.Sprintf("many-%d", p.K), true, "many-origins:conforms")
+	})
+	r.Set("many_origins_histories", ks)
 	r.Finish()
 }
